@@ -554,3 +554,68 @@ def rule_w4(ctx, R):
                     n += 1
                     R.finding(fn, "global-counter:not-monotone", "%s rewinds or overwrites the global stamp counter (line %d)" % (fn.split("::")[-1], b.bb_line(i)), b.loc(i))
     R.floor("stamp_map_operations", n)
+
+
+def rule_norefuse(ctx, R):
+    """all or nothing: once the connection is known to be inside MULTI, a command is either
+    queued or (control commands) handled -- it is not refused with an error reply on a path that
+    skips the queue step, because the transaction is not marked aborted there and EXEC would run
+    the rest (a CLIENT PAUSE / rate-limit / maintenance test placed before the queue test).
+    Checked: every block of process_frame that builds an error reply and lies after the
+    connection-state read is dominated by the in_transaction/queue test, or lies in a control
+    command's arm or in the authentication refusal."""
+    b = ctx.prog.need(PF)
+    q = [(i, t) for i, t in b.calls() if callee(t) == "storage::commands::transactions::should_queue_command"]
+    if not q:
+        R.broken.append("queue test not found"); return
+    qi = q[0][0]
+    intx = in_transaction_switch(b, qi)
+    tests = shared.str_tests(b)
+    ctrl = set(shared.str_table(ctx.prog.need("storage::commands::transactions::should_queue_command")))
+    ctrl_region = set()
+    for n in ctrl:
+        ctrl_region |= shared.arm_region(b, tests, n)
+    refuse = set()
+    for (c, csw, c_auth, c_not) in rules_auth.state_tests(ctx, b):
+        refuse |= cfg.fwd(b, [c_not]) - cfg.fwd(b, [c_auth])
+    # the read of the connection state: with_connection whose closure reads in_transaction
+    reads = []
+    for i, t in b.calls():
+        for c in t.get("clos") or []:
+            cb = ctx.prog.bodies.get(c)
+            if cb is None:
+                continue
+            for bb in cb.bbs:
+                for st in bb["s"]:
+                    if st["k"] == "=" and st["r"]["k"] in ("use", "ref"):
+                        pl = op_place(st["r"]["o"]) if st["r"]["k"] == "use" else st["r"]["p"]
+                        if pl and any(isinstance(e, dict) and str(e.get("f", "")).endswith("TransactionState.in_transaction") for e in pl["p"]):
+                            reads.append(i)
+    reads = sorted(set(r for r in reads if cfg.dominates(b, r, qi)))
+    R.floor("connection_state_reads", len(reads))
+    if not reads:
+        return
+    rd = reads[0]
+    rs = shared.result_switch(b, rd)
+    after = set()
+    if rs:
+        for o in rs["ok"]:
+            after |= cfg.dom_set(b, o)
+    else:
+        after = cfg.dom_set(b, rd)
+    n = 0
+    for i, t in b.calls():
+        if callee(t) != "protocol::resp::RespFrame::error" or i not in after:
+            continue
+        n += 1
+        dom = cfg.dominates(b, qi, i) or (intx is not None and cfg.dominates(b, intx, i))
+        # an error built inside the arm of one named command (e.g. MONITOR's arity error) belongs
+        # to R-TX-QUEUE's question whether that command may run before the queue test at all
+        in_named_arm = any(i in cfg.dom_set(b, t_["true"]) for t_ in tests)
+        ok = dom or i in ctrl_region or i in refuse or in_named_arm
+        msg = shared.resolve_const_str(b, t["a"][0]) if t["a"] else None
+        R.inst(PF, "error-reply", {"at": b.loc(i), "text": (msg or "")[:40], "after_queue_test": dom, "control_arm": i in ctrl_region, "auth_refusal": i in refuse})
+        if not ok:
+            R.finding(PF, "refusal-before-queue-test:%s" % ((msg or "?").split(" ")[1] if msg and " " in msg else (msg or "?"))[:24],
+                      "process_frame can answer an error (%r, line %d) to a connection that is inside MULTI on a path that skips the queue step: the command is dropped from the transaction without marking it aborted, so EXEC runs only the others" % (msg, b.bb_line(i)), b.loc(i))
+    R.floor("error_replies_after_state_read", n)
